@@ -12,6 +12,23 @@ def qdesc(q):
     return {k: q[k] for k in ("kind", "run_debug", "target", "exclude", "root")}
 
 
+def documented_order(t):
+    """the order a max_concurrency=1 run without ties must have: repeatedly the ready node of greatest compound priority
+    (nodes = everything that is not an argument / constant holder and not a debug node; RUN_DEBUG_NODES is off)"""
+    nodes = [n for n in t["cp"] if ">!>" not in n and "<!<" not in n and not t["debug"].get(n)]
+    ns = set(nodes)
+    deps = {n: [d_ for d_ in t["deps"].get(n, []) if d_ in ns] for n in nodes}
+    done, out = set(), []
+    while len(out) < len(nodes):
+        ready = [n for n in nodes if n not in done and all(d_ in done for d_ in deps[n])]
+        if not ready:
+            return None
+        b = max(ready, key=lambda n: t["cp"][n])
+        done.add(b)
+        out.append(b)
+    return out
+
+
 def run(pid, tier, seed, res, seeds_extra=None, only=None):
     rng = random.Random(seed * 104729 + 7)
     ncases = 150 if tier == "quick" else 2500
@@ -33,6 +50,11 @@ def run(pid, tier, seed, res, seeds_extra=None, only=None):
         dict(kind="exec", run_debug=True, target=[["id", "n0"]], exclude=None, root=None, in_hypothesis=True),
         dict(kind="exec", run_debug=True, target=[["id", "n0"], ["id", "n1"]], exclude=None, root=None, in_hypothesis=True),
         dict(kind="exec", run_debug=False, target=None, exclude=[["id", "n1"]], root=None, in_hypothesis=True)]))
+    # a compound priority of exactly 0 next to a non-zero own priority (n0: 6 + (-6)), competitors in between
+    cases.append(dict(kind="graph", n=4, edges=[[0, 1]], prios=[6, -6, 3, -2], debug=[], setup=[], tags={}, consts={}, queries=[
+        dict(kind="call", run_debug=False, target=None, exclude=None, root=None, in_hypothesis=True)]))
+    cases.append(dict(kind="graph", n=5, edges=[[0, 1], [0, 2]], prios=[-4, 1, 3, -2, -5], debug=[], setup=[], tags={}, consts={}, queries=[
+        dict(kind="exec", run_debug=False, target=[["id", "n1"], ["id", "n3"], ["id", "n4"]], exclude=None, root=None, in_hypothesis=True)]))
     # a short root closure next to a large unrelated component, exclusions inside a long chain of the closure
     # (the order in which the nodes of a sub-graph are visited must not matter)
     big = [[6, j] for j in range(7, 14)] + [[7, 10], [8, 11], [9, 12], [10, 13]]
@@ -44,7 +66,18 @@ def run(pid, tier, seed, res, seeds_extra=None, only=None):
             dict(kind="exec", run_debug=False, target=[["id", "n1"]], exclude=[["id", "n3"]], root=[["id", "n0"]], in_hypothesis=True),
             dict(kind="exec", run_debug=False, target=None, exclude=[["id", "n7"]], root=[["id", "n6"]], in_hypothesis=True)]))
     for _ in range(ncases):
-        cases.append(kgraph.gen_queries(rng, kgraph.gen_graph_case(rng, max_n=7 if tier == "quick" else 9), k=6))
+        gc = kgraph.gen_graph_case(rng, max_n=7 if tier == "quick" else 9)
+        zr = random.Random(rng.getrandbits(30))
+        if zr.random() < 0.15:
+            # make one compound priority exactly 0 while the node's own priority is not
+            withd = [i for i in range(gc["n"]) if any(a == i for a, _b in gc["edges"])]
+            if withd:
+                i0 = zr.choice(withd)
+                below = kgraph.descendants(gc["n"], [tuple(e) for e in gc["edges"]], [i0]) - {i0}
+                tot = sum(gc["prios"][j] for j in below)
+                if tot != 0:
+                    gc["prios"][i0] = -tot
+        cases.append(kgraph.gen_queries(rng, gc, k=6))
     n_exh = 0
     if tier == "thorough" and only is None:
         # every DAG shape on <= 3 nodes x every (R, X, T) with each of them None or any subset, ids as aliases
@@ -339,6 +372,13 @@ def run(pid, tier, seed, res, seeds_extra=None, only=None):
                         if len(set(cps)) == len(cps) and a["order"] != b["order"]:
                             res.hit("C07", "monitor", "max_concurrency=1 without ties: execution order %s under seed 0, %s under seed %d" % (a["order"], b["order"], sd),
                                     dict(engine="kgraph", case=case, kind="monitor", seeds=[0, sd]))
+                        # ... and that unique order is the documented one: always the ready node of greatest compound priority
+                        if sd == seeds[0] and len(set(cps)) == len(cps) and a.get("maxc") == 1 and a["order"] and not str(a["order"][0]).startswith("ERR"):
+                            exp = documented_order(a)
+                            if exp is not None and [x for x in exp if x in set(a["order"])] != a["order"]:
+                                for p_ in ("C07", "C06"):
+                                    res.hit(p_, "monitor", "max_concurrency=1 without ties: executed in the order %s, always starting the ready node of greatest compound priority gives %s (table %s)" % (
+                                        a["order"], [x for x in exp if x in set(a["order"])], {k_: v_ for k_, v_ in a["cp"].items() if k_ in set(a["order"])}), dict(engine="kgraph", case=case, kind="monitor", seeds=[0]))
                         # an executor over the whole DAG schedules by the same table: same unique order
                         for t_ in (a, b):
                             if len(set(cps)) == len(cps) and t_.get("xorder") is not None and t_["xorder"] != t_["order"]:
